@@ -198,8 +198,19 @@ fn gen_query(rng: &mut Rng, rows_: &[RowSpec], typed: bool, now: i64) -> (String
         }
         None => w,
     };
-    let sql = match rng.below(7) {
-        0 | 1 => format!("SELECT value_i64, timestamp, host, metric_name FROM metrics WHERE {}", wh),
+    let sql = match rng.below(15) {
+        13 if !typed => {
+            // a projection in FROM that re-uses the name of the time column for a shifted value: the window then
+            // speaks about the shifted value, not about the stored column the time index knows
+            tags.push("derived-table-shifted-timestamp");
+            format!("SELECT value_i64, timestamp FROM (SELECT timestamp + 3600000000000 AS timestamp, value_i64, host, metric_name FROM metrics) d WHERE {}", wh)
+        }
+        14 => {
+            // the same rows through a derived table that keeps every column as it is
+            tags.push("derived-table-identity");
+            format!("SELECT value_i64, timestamp FROM (SELECT timestamp, value_i64, host, metric_name FROM metrics) d WHERE {}", wh)
+        }
+        7..=14 | 0 | 1 => format!("SELECT value_i64, timestamp, host, metric_name FROM metrics WHERE {}", wh),
         2 => {
             tags.push("select-star");
             format!("SELECT * FROM metrics WHERE {}", wh)
